@@ -46,7 +46,7 @@ Section Screw.
   (* the point of the profile plane the screw hands to its thread profile *)
   Definition screw_map (s : ScrewSDF3) (p : V3) : V2 :=
     let y0 := osqrt O (wx p * wx p + wy p * wy p) in
-    let y1 := if negb (s_taper s =? o0 O) then y0 + wz p * otan O (s_taper s) else y0 in
+    let y1 := if negb (s_taper s =? o0 O) then oabs O (y0 + wz p * otan O (s_taper s)) else y0 in
     let theta := oatan2 O (wy p) (wx p) in
     let z := wz p + s_lead s * theta / tau in
     mkV2 (sawtooth z (s_pitch s)) y1.
